@@ -77,3 +77,33 @@ def tnDef (s : SchemaD) : Def → List (Node × View)
 def typedNodes (s : SchemaD) (d : Doc) : List (Node × View) := d.defs.flatMap (tnDef s)
 
 end PyGql.Validate.Spec
+
+namespace PyGql.Validate.Spec
+open PyGql PyGql.Validate
+
+/-- **5.3.1 Field selections**: a field selected where a parent type is known is defined on that type
+    (or is an allowed meta field) -/
+def fieldsOnCorrectType (s : SchemaD) (d : Doc) : Prop :=
+  ∀ p ∈ typedNodes s d, ∀ name args dirs hs, p.1 = Node.field name args dirs hs →
+    p.2.parent.isSome = true → p.2.field.isSome = true
+
+/-- **5.3.3 Leaf field selections**: a field of leaf type has no sub-selection, a field of composite type has one -/
+def scalarLeafs (s : SchemaD) (d : Doc) : Prop :=
+  ∀ p ∈ typedNodes s d, ∀ name args dirs hs, p.1 = Node.field name args dirs hs →
+    ∀ t, p.2.type = some t → (isLeaf s t.base = true → hs = false) ∧ (isComposite s t.base = true → hs = true)
+
+/-- **5.4.1 Argument names**: every argument given to a field / directive is defined by it -/
+def knownArgumentNames (s : SchemaD) (d : Doc) : Prop :=
+  (∀ p ∈ typedNodes s d, ∀ name args dirs hs, p.1 = Node.field name args dirs hs →
+    ∀ fd, p.2.field = some fd → ∀ a ∈ args, ∃ ad ∈ fd.args, ad.name = a.name) ∧
+  (∀ p ∈ typedNodes s d, ∀ dr, p.1 = Node.directive dr →
+    ∀ dd, p.2.directive = some dd → ∀ a ∈ dr.args, ∃ ad ∈ dd.args, ad.name = a.name)
+
+/-- **5.4.2.1 Required arguments**: every required argument (non-null type, no default) is given -/
+def providedRequiredArguments (s : SchemaD) (d : Doc) : Prop :=
+  (∀ p ∈ typedNodes s d, ∀ name args dirs hs, p.1 = Node.field name args dirs hs →
+    ∀ fd, p.2.field = some fd → ∀ ad ∈ fd.args, ArgD.required ad = true → ∃ a ∈ args, a.name = ad.name) ∧
+  (∀ p ∈ typedNodes s d, ∀ dr, p.1 = Node.directive dr →
+    ∀ dd, p.2.directive = some dd → ∀ ad ∈ dd.args, ArgD.required ad = true → ∃ a ∈ dr.args, a.name = ad.name)
+
+end PyGql.Validate.Spec
